@@ -222,6 +222,7 @@ func (s *Sched) acquire(m *Mutex) {
 	}
 	m.held = true
 	m.owner = t
+	m.sch.Store(s)
 	t.wantLock = nil
 	s.mu.Unlock()
 }
@@ -230,6 +231,7 @@ func (s *Sched) release(m *Mutex) {
 	s.mu.Lock()
 	m.held = false
 	m.owner = nil
+	m.sch.Store(nil)
 	s.mu.Unlock()
 }
 
